@@ -1018,6 +1018,10 @@ func (e *Engine) trCall(env *SpecEnv, n SCall) Val {
 		return boolVal("(str.in_re " + arg(0).T + " " + smt + ")")
 	case "bigOf":
 		return intVal(sel(e.heapIn(env.st, "BIGVAL", "(Array Int Int)"), arg(0).T))
+	case "decval":
+		// decval(s): the number a decimal numeral denotes (what big.Int.SetString(s, 10) stores; str.to_int for digit strings)
+		e.sc.declareFun("decval", []string{"String"}, "Int")
+		return intVal("(decval " + arg(0).T + ")")
 	case "arrayOf":
 		return intVal("(s_ref " + arg(0).T + ")")
 	case "deepEqual":
